@@ -24,7 +24,7 @@ structure WF (P : DParams) (infs recs : List Node) : Prop where
 
 /-- the new generation -/
 def newInf (P : DParams) (s : DState) : List Node :=
-  P.nodes.filter fun v => s.sus v && s.inf.any fun u => (P.nbrs u).contains v && P.rule u v
+  P.nodes.filter fun v => s.sus v && s.inf.any fun u => (P.nbrs u).contains v && P.rule (s.age u) u v
 
 /-- infectious nodes that stay infectious -/
 def stay (P : DParams) (s : DState) : List Node :=
@@ -74,8 +74,12 @@ theorem step_infTime (P : DParams) (s : DState) :
   unfold step newInf
   cases h : P.recSteps <;> simp
 
+theorem step_age_none (P : DParams) (s : DState) (h : P.recSteps = none) : (step P s).age = s.age := by
+  unfold step
+  simp [h]
+
 theorem mem_newInf (P : DParams) (s : DState) (v : Node) :
-    v ∈ newInf P s ↔ v ∈ P.nodes ∧ s.sus v = true ∧ ∃ u ∈ s.inf, v ∈ P.nbrs u ∧ P.rule u v = true := by
+    v ∈ newInf P s ↔ v ∈ P.nodes ∧ s.sus v = true ∧ ∃ u ∈ s.inf, v ∈ P.nbrs u ∧ P.rule (s.age u) u v = true := by
   simp [newInf]
 
 theorem stay_sublist (P : DParams) (s : DState) : (stay P s).Sublist s.inf := by
@@ -91,7 +95,7 @@ theorem mem_step_inf (P : DParams) (s : DState) (v : Node) :
 /-! ### pathwise one-step statements -/
 
 theorem step_newInf' (P : DParams) (s : DState) (v : Node) (hv : v ∈ P.nodes) (hnot : v ∉ s.inf) :
-    v ∈ (step P s).inf ↔ (s.sus v = true ∧ ∃ u ∈ s.inf, v ∈ P.nbrs u ∧ P.rule u v = true) := by
+    v ∈ (step P s).inf ↔ (s.sus v = true ∧ ∃ u ∈ s.inf, v ∈ P.nbrs u ∧ P.rule (s.age u) u v = true) := by
   rw [mem_step_inf, mem_newInf]
   have : v ∉ stay P s := fun h => hnot ((stay_sublist P s).subset h)
   constructor
@@ -109,12 +113,12 @@ theorem one_step_infectious' (P : DParams) (h : P.recSteps = none) (s : DState)
   · have := hs u hu; simp_all
   · simp at h
 
-theorem newInf_perm (P : DParams) (s s' : DState) (hp : s.inf.Perm s'.inf) (hsus : s.sus = s'.sus) :
-    newInf P s = newInf P s' := by
+theorem newInf_perm (P : DParams) (s s' : DState) (hp : s.inf.Perm s'.inf) (hsus : s.sus = s'.sus)
+    (hage : s.age = s'.age) : newInf P s = newInf P s' := by
   unfold newInf
   apply List.filter_congr
   intro v _
-  rw [hsus]
+  rw [hsus, hage]
   congr 1
   rw [Bool.eq_iff_iff]
   simp only [List.any_eq_true]
@@ -133,7 +137,7 @@ theorem step_perm' (P : DParams) (s s' : DState) (hp : s.inf.Perm s'.inf)
     (hsus : s.sus = s'.sus) (hage : s.age = s'.age) (ht : s.t = s'.t) (hn : s.nS = s'.nS) (hr : s.totR = s'.totR) :
     (step P s).inf = (step P s').inf ∧ (step P s).nS = (step P s').nS ∧ (step P s).totR = (step P s').totR ∧
     (step P s).infTime.drop s.infTime.length = (step P s').infTime.drop s'.infTime.length := by
-  have h1 := newInf_perm P s s' hp hsus
+  have h1 := newInf_perm P s s' hp hsus hage
   have h2 := stay_perm P s s' hp hage
   refine ⟨?_, ?_, ?_, ?_⟩
   · rw [step_inf, step_inf, h1]
@@ -185,6 +189,14 @@ theorem loop_inv (P : DParams) (Inv : Nat → DState → Prop)
     by_cases hs : stopped P s
     · rw [loop_succ_stopped P n s hs]; exact ⟨i, h⟩
     · rw [loop_succ_running P n s hs]; exact ih (i + 1) _ (hstep i s h hs)
+
+/-! ### default recovery rule: all ages stay 0 -/
+
+theorem age_default' (P : DParams) (infs recs : List Node) (fuel : Nat) (h : P.recSteps = none) :
+    (run P infs recs fuel).age = fun _ => 0 := by
+  obtain ⟨_, hj⟩ := loop_inv P (fun _ s => s.age = fun _ => 0)
+    (fun _ s hs _ => by rw [step_age_none P s h]; exact hs) fuel 0 _ (rfl : (init P infs recs).age = fun _ => 0)
+  exact hj
 
 /-! ### shape of the rows -/
 
@@ -449,7 +461,7 @@ theorem mem_ball_zero (v : Node) :
 
 theorem mem_ball_succ (k : Nat) (v : Node) :
     v ∈ ball P infs recs (k + 1) ↔ v ∈ P.nodes ∧ v ∉ recs ∧
-      (v ∈ ball P infs recs k ∨ ∃ u ∈ ball P infs recs k, v ∈ P.nbrs u ∧ P.rule u v = true) := by
+      (v ∈ ball P infs recs k ∨ ∃ u ∈ ball P infs recs k, v ∈ P.nbrs u ∧ P.rule 0 u v = true) := by
   simp [ball]
 
 theorem ball_eq_filter (k : Nat) : ∃ p : Node → Bool, ball P infs recs k = P.nodes.filter p := by
@@ -711,9 +723,10 @@ structure BfsInv (i : Nat) (s : DState) : Prop where
   time : s.t.headD P.tmin = P.tmin + (i : Rat)
   horizon : ∀ j < i, ERat.lt (some (P.tmin + (j : Rat))) P.tmax = true
   rep : ∀ v, rep s.infTime v = repSpec P infs recs i v
+  rule0 : ∀ u v, P.rule (s.age u) u v = P.rule 0 u v
 
 theorem bfsInv_init (h : WF P infs recs) : BfsInv P infs recs 0 (init P infs recs) := by
-  refine ⟨?_, ?_, ?_, ?_, ?_, ?_⟩
+  refine ⟨?_, ?_, ?_, ?_, ?_, ?_, ?_⟩
   · intro v hv
     rw [mem_ball_zero]
     simp only [init, Bool.not_eq_true', Bool.or_eq_false_iff, List.contains_eq_mem, decide_eq_false_iff_not]
@@ -729,6 +742,7 @@ theorem bfsInv_init (h : WF P infs recs) : BfsInv P infs recs 0 (init P infs rec
   · simp [init]
   · intro j hj; omega
   · intro v; rfl
+  · intro u v; rfl
 
 theorem mem_newInf_bfs (i : Nat) (s : DState) (h : BfsInv P infs recs i s) (v : Node) :
     v ∈ newInf P s ↔ isNew P infs recs i v := by
@@ -736,6 +750,7 @@ theorem mem_newInf_bfs (i : Nat) (s : DState) (h : BfsInv P infs recs i s) (v : 
   rw [mem_newInf, mem_ball_succ]
   constructor
   · rintro ⟨hv, hs, u, hu, hc⟩
+    rw [h.rule0] at hc
     have := (h.sus v hv).mp hs
     exact ⟨⟨hv, this.2, Or.inr ⟨u, h.inf_sub u hu, hc⟩⟩, this.1⟩
   · rintro ⟨⟨hv, hr, hb⟩, hnb⟩
@@ -743,7 +758,7 @@ theorem mem_newInf_bfs (i : Nat) (s : DState) (h : BfsInv P infs recs i s) (v : 
     rcases hb with hb | ⟨u, hu, hc⟩
     · exact absurd hb hnb
     · by_cases hui : u ∈ s.inf
-      · exact ⟨u, hui, hc⟩
+      · exact ⟨u, hui, by rw [h.rule0]; exact hc⟩
       · exfalso
         have : ¬ ∀ j, i = j + 1 → u ∉ ball P infs recs j := fun hall => hui (h.inf_sup u hu hall)
         apply this
@@ -753,11 +768,11 @@ theorem mem_newInf_bfs (i : Nat) (s : DState) (h : BfsInv P infs recs i s) (v : 
         rw [mem_ball_succ]
         exact ⟨hv, hr, Or.inr ⟨u, huj, hc⟩⟩
 
-theorem bfsInv_step (hnd : P.nodes.Nodup) (i : Nat) (s : DState) (h : BfsInv P infs recs i s)
+theorem bfsInv_step (hrule : P.recSteps = none ∨ Ageless P) (hnd : P.nodes.Nodup) (i : Nat) (s : DState) (h : BfsInv P infs recs i s)
     (hrun : ¬ stopped P s) : BfsInv P infs recs (i + 1) (step P s) := by
   have hnew := mem_newInf_bfs P infs recs i s h
   have hstay_sub : (stay P s).Sublist s.inf := stay_sublist P s
-  refine ⟨?_, ?_, ?_, ?_, ?_, ?_⟩
+  refine ⟨?_, ?_, ?_, ?_, ?_, ?_, ?_⟩
   · intro v hv
     rw [step_sus]
     simp only [Bool.and_eq_true, Bool.not_eq_true', List.contains_eq_mem, decide_eq_false_iff_not]
@@ -797,10 +812,14 @@ theorem bfsInv_step (hnd : P.nodes.Nodup) (i : Nat) (s : DState) (h : BfsInv P i
     by_cases hn : isNew P infs recs i v
     · rw [if_pos ((hnew v).mpr hn), if_pos hn]
     · rw [if_neg (fun hh => hn ((hnew v).mp hh)), if_neg hn]
+  · intro u v
+    rcases hrule with hnone | hag
+    · rw [step_age_none P s hnone]; exact h.rule0 u v
+    · exact hag _ u v
 
-theorem bfsInv_run (h : WF P infs recs) (fuel : Nat) :
+theorem bfsInv_run (hrule : P.recSteps = none ∨ Ageless P) (h : WF P infs recs) (fuel : Nat) :
     ∃ i, BfsInv P infs recs i (run P infs recs fuel) :=
-  loop_inv P (BfsInv P infs recs) (fun i s hs hr => bfsInv_step P infs recs h.nodup i s hs hr)
+  loop_inv P (BfsInv P infs recs) (fun i s hs hr => bfsInv_step P infs recs hrule h.nodup i s hs hr)
     fuel 0 _ (bfsInv_init P infs recs h)
 
 /-- final step: the invariant at a stopped state gives the BFS predicate -/
@@ -864,11 +883,11 @@ theorem isBFS_of_inv (i : Nat) (s : DState) (h : BfsInv P infs recs i s) (hstop 
         subst this
         exact hlt (h.horizon d hd')
 
-theorem bfs_correct' (h : WF P infs recs) (fuel : Nat)
+theorem bfs_correct' (hrule : P.recSteps = none ∨ Ageless P) (h : WF P infs recs) (fuel : Nat)
     (hstop : let s := run P infs recs fuel
              s.inf.isEmpty = true ∨ ERat.lt (some (s.t.headD P.tmin)) P.tmax = false) :
     isBFS P infs recs (run P infs recs fuel).infTime = true := by
-  obtain ⟨i, hi⟩ := bfsInv_run P infs recs h fuel
+  obtain ⟨i, hi⟩ := bfsInv_run P infs recs hrule h fuel
   exact isBFS_of_inv P infs recs i _ hi hstop
 
 end Ball
